@@ -7,7 +7,7 @@ dicom_core::PrimitiveValue::calculate_byte_len and the header / primitive encode
 The output is a byte vector of concrete shape with symbolic content, read by an independent PS3.5 walker written here."""
 import os, re
 from z3 import *
-import core, mirdump, native
+import core, mirdump, native, fmtlib
 
 d = core._d
 UNDEF = 0xFFFFFFFF
@@ -197,6 +197,11 @@ def contracts_(c, args, ctx):
         if meth == "encode_primitive":
             cands = [n for n in core.FNS if n == "BasicEncode::encode_primitive"]
         if len(cands) != 1: raise core.NotEncodable("no unique implementation of %s for codec %s: %s" % (meth, ENC["kind"], cands))
+        if meth == "encode_primitive":
+            sink = d(args[1]); before = len(sink.b)
+            r = core.run_fn(cands[0], args, ctx)
+            ENC["reported"] = (r.f[0] if r.variant == "Ok" else None, len(sink.b) - before)
+            return r
         return core.run_fn(cands[0], args, ctx)
     m = re.fullmatch(r"<Self as BasicEncode>::encode_(us|ul|uv|ss|sl|sv|fl|fd)::<.*>", c)
     if m:
@@ -228,7 +233,7 @@ def contracts_(c, args, ctx):
         return None
     if re.search(r"as (std::io::)?Write>::write_all$", c) or re.match(r"Vec::<u8>::extend_from_slice$", c):
         src = d(args[1])
-        data = src.items() if isinstance(src, View) else (src.b if isinstance(src, core.Str) else (src.items if isinstance(src, core.VecV) else list(src.f)))
+        data = list(src) if isinstance(src, (bytes, bytearray)) else (src.items() if isinstance(src, View) else (src.b if isinstance(src, core.Str) else (src.items if isinstance(src, core.VecV) else list(src.f))))
         d(args[0]).b.extend([norm(x) for x in data])
         return core.Enum("Ok", [None]) if "write_all" in c else None
     if re.fullmatch(r"<\[u8(; \d+)?\] as Index(Mut)?<(std::ops::)?RangeFrom<usize>>>::index(_mut)?", c):
@@ -294,10 +299,14 @@ def run(rep, tier, seed, known, part):
     pp, _ = mirdump.dump("dicom-parser")
     pe, _ = mirdump.dump("dicom-encoding")
     pc_, _ = mirdump.dump("dicom-core")
-    core.load([pp, pe, pc_])
-    for p in (pp, pe, pc_): os.remove(p)
+    pch, _ = mirdump.dump("chrono")
+    core.load([pp, pe, pc_, pch])
+    for p in (pp, pe, pc_, pch): os.remove(p)
     find_impls()
-    core.EXTRA_CONTRACTS[:] = [contracts]
+    core.EXTRA_CONTRACTS[:] = [contracts, fmtlib.contracts]
+    core.ENUMS.update({"DicomDateImpl::Year": 0, "DicomDateImpl::Month": 1, "DicomDateImpl::Day": 2,
+                       "DicomTimeImpl::Hour": 0, "DicomTimeImpl::Minute": 1, "DicomTimeImpl::Second": 2, "DicomTimeImpl::Fraction": 3})
+    core.ENUMS.update({"DateComponent::" + n: k for k, n in enumerate(["Year", "Month", "Day", "Hour", "Minute", "Second", "Millisecond", "Fraction", "UtcWest", "UtcEast"])})
     core.ENUMS.update({"DataToken::" + n: k for k, n in enumerate(TOKS)})
     core.ENUMS.update({"SeqTokenType::Sequence": 0, "SeqTokenType::Item": 1})
     WRITE = next(n for n in core.FNS if re.search(r"<impl at parser/src/dataset/write.rs:[^>]*>::write$", n))
@@ -307,8 +316,10 @@ def run(rep, tier, seed, known, part):
                       "dicom_encoding::encode::BasicEncode::encode_primitive, basic::{Little,Big}EndianBasicEncoder::encode_*"]
     nat = native.Native()
     try:
-        elements(rep, tier, nat, EPE)
-        token_streams(rep, tier, nat, WRITE)
+        only = os.environ.get("C04_ONLY", "")
+        if not only or "elements" in only: elements(rep, tier, nat, EPE)
+        if not only or "tokens" in only: token_streams(rep, tier, nat, WRITE)
+        if not only or "dates" in only: date_values(rep, tier, nat, EPE)
     finally:
         nat.close()
         core.EXTRA_CONTRACTS[:] = []
@@ -627,3 +638,178 @@ def in_pixel(toks, k):
         if t[0] == "P": inpix = True; depth = 1
         elif inpix and t[0] == "s": inpix = False
     return inpix
+
+
+# ------------------------------------------------------------------ part C: date / time / date-time values built by the real constructors
+def ctor(name_re, recv=None):
+    c = [n for n in core.FNS if re.search(name_re, n)]
+    if len(c) != 1: raise core.NotEncodable("constructor %s: %s" % (name_re, c))
+    return c[0]
+
+
+def date_values(rep, tier, nat, EPE):
+    """values are produced by running the MIR of the public constructors on symbolic arguments (so exactly the states the code admits
+    are considered); then one element is written and the stream is checked: length field even and exact, space padding, the count
+    encode_primitive reports equals the bytes it appended, bytes_written exact"""
+    P = "partial::<impl at core/src/value/partial.rs:[^>]*>::"
+    insts = []
+    for nm, nargs in (("from_y", 1), ("from_ym", 2), ("from_ymd", 3)):
+        insts.append(("Date", "DA", nm, nargs))
+    for nm, nargs in (("from_h", 1), ("from_hm", 2), ("from_hms", 3), ("from_hms_milli", 4), ("from_hms_micro", 4), ("from_hmsf", 5)):
+        insts.append(("Time", "TM", nm, nargs))
+    for nm in ("from_date", "from_date_with_time_zone", "from_date_and_time", "from_date_and_time_with_time_zone"):
+        insts.append(("DateTime", "DT", nm, 0))
+    codecs = ("ele",) if tier == "quick" else ("ele", "ile", "ebe")
+    rep.functions += ["dicom_core::value::partial::{DicomDate, DicomTime, DicomDateTime}::{from_*, to_encoded, precision, ...}", "dicom_core::value::serialize::encode_{date,time,datetime}",
+                      "dicom_core::PrimitiveValue::{da,tm,dt}_byte_len", "chrono::FixedOffset::{east_opt, Display/Debug::fmt}", "core::fmt template interpreter (enginem/fmtlib.py)"]
+    for codec in codecs:
+        ENC["kind"] = codec
+        for (variant, vrn, cname, nargs) in insts:
+            if os.environ.get("C04_DATES_FILTER") and os.environ["C04_DATES_FILTER"] != cname: continue
+            for count in ((1,) if tier == "quick" and variant != "Date" else (1, 2)):
+                box = {}
+
+                def mk_date(ctx, tag, fn="from_ymd"):
+                    a = [BitVec("%s_y" % tag, 16), BitVec("%s_mo" % tag, 8), BitVec("%s_d" % tag, 8)][:{"from_y": 1, "from_ym": 2, "from_ymd": 3}[fn]]
+                    r = core.run_fn(ctor(P + fn + "$"), a, ctx)
+                    return r.f[0] if r.variant == "Ok" else None
+
+                def mk_time(ctx, tag, fn):
+                    a = [BitVec("%s_h" % tag, 8), BitVec("%s_mi" % tag, 8), BitVec("%s_s" % tag, 8), BitVec("%s_f" % tag, 32), BitVec("%s_fp" % tag, 8)]
+                    n = {"from_h": 1, "from_hm": 2, "from_hms": 3, "from_hms_milli": 4, "from_hms_micro": 4, "from_hmsf": 5}[fn]
+                    r = core.run_fn(ctor(P + fn + "$"), a[:n], ctx)
+                    return r.f[0] if r.variant == "Ok" else None
+
+                def mk_offset(ctx, tag):
+                    # every offset chrono admits (|secs| < 86400) exactly once, assembled from small components so that the
+                    # solver's divisions by 60 stay cheap: secs = +-(3600*H + 60*M + S)
+                    H, M, S_, neg = BitVec("%s_oh" % tag, 8), BitVec("%s_om" % tag, 8), BitVec("%s_os" % tag, 8), Bool("%s_oneg" % tag)
+                    ctx.pc.extend([ULE(H, 23), ULE(M, 59), ULE(S_, 59)])
+                    mag = ZeroExt(24, H) * 3600 + ZeroExt(24, M) * 60 + ZeroExt(24, S_)
+                    secs = If(neg, -mag, mag)
+                    r = core.run_fn(ctor(r"fixed::<impl at [^>]*>::east_opt$"), [secs], ctx)
+                    return r.f[0] if r.variant == "Some" else None
+
+                def build(ctx, variant=variant, vrn=vrn, cname=cname, codec=codec, count=count):
+                    pc = ctx.pc
+                    vals = []
+                    for k in range(count):
+                        tag = "v%d" % k
+                        if variant == "Date": v = mk_date(ctx, tag, cname)
+                        elif variant == "Time":
+                            tfn = cname
+                            v = mk_time(ctx, tag, tfn)
+                        else:
+                            dfn = ["from_ymd", "from_ym", "from_y"][k % 3] if cname != "from_date_and_time" and cname != "from_date_and_time_with_time_zone" else "from_ymd"
+                            date = mk_date(ctx, tag, dfn)
+                            if date is None: return BoolVal(False)
+                            a = [date]
+                            if "time" in cname.replace("time_zone", ""):
+                                t = mk_time(ctx, tag, ["from_hms_micro", "from_h", "from_hmsf"][k % 3] if tier != "quick" else "from_hmsf")
+                                if t is None: return BoolVal(False)
+                                a.append(t)
+                            if "time_zone" in cname:
+                                off = mk_offset(ctx, tag)
+                                if off is None: return BoolVal(False)
+                                a.append(off)
+                            r = core.run_fn(ctor(P + cname + "$"), a, ctx)
+                            v = r if not isinstance(r, core.Enum) or r.variant not in ("Ok", "Err") else (r.f[0] if r.variant == "Ok" else None)
+                        if v is None: return BoolVal(False)          # the constructor refused the arguments: nothing to write
+                        vals.append(v)
+                    val = core.Enum(variant, [core.VecV(vals)])
+                    sink = Sink([])
+                    printer = core.Struct([sink, core.Struct([]), core.Enum("Default", []), BitVecVal(0, 64), Sink([])])
+                    de = header(BitVecVal(0x0008, 16), BitVecVal(0x002A, 16), vrn, BitVec("hdr_len", 32))
+                    ENC["reported"] = None
+                    r = core.run_fn(EPE, [core.Ref(core.Cell(printer)), core.Ref(core.Cell(de)), core.Ref(core.Cell(val))], ctx)
+                    box["r"] = r
+                    if r.variant != "Ok":
+                        box["problems"] = ["encode_primitive_element returned an error"]; return BoolVal(True)
+                    b = [norm(x) for x in sink.b]
+                    box["bytes"] = b
+                    problems, conds = [], []
+                    hdr_len = 8
+                    lf = b[hdr_len - (4 if codec == "ile" else 2):hdr_len]
+                    follow = len(b) - hdr_len
+                    if not all(isinstance(x, int) for x in lf):
+                        # the length was computed from a component that a later branch pins down: compare as terms under the path condition
+                        parts = [BitVecVal(x, 8) if isinstance(x, int) else x for x in (lf if codec == "ebe" else lf[::-1])]
+                        lnv = Concat(*parts) if len(parts) > 1 else parts[0]
+                        conds.append(lnv != BitVecVal(follow, lnv.size()))
+                    else:
+                        ln = int.from_bytes(bytes(lf), "big" if codec == "ebe" else "little")
+                        if ln != follow: problems.append("length field %d, %d value bytes follow" % (ln, follow))
+                        if ln % 2: problems.append("odd value length %d" % ln)
+                    rp_ = ENC.get("reported")
+                    if rp_ is None: problems.append("encode_primitive was not reached")
+                    else:
+                        said, did = rp_
+                        said = core.concrete_index(said) if said is not None else None
+                        if said != did: problems.append("encode_primitive reports %s bytes, appended %d" % (said, did))
+                        if follow not in (did, did + 1): problems.append("%d bytes follow the header, the value text has %d" % (follow, did))
+                        elif follow == did + 1:
+                            y = b[-1]
+                            if isinstance(y, int):
+                                if y != 0x20: problems.append("padding byte 0x%02x, expected a space for VR %s" % (y, vrn))
+                            else: conds.append(y != 0x20)
+                        elif did % 2: problems.append("odd text length %d without padding" % did)
+                    bw = printer.f[3]
+                    bw = simplify(bw) if not isinstance(bw, int) else bw
+                    if isinstance(bw, int) or is_bv_value(bw):
+                        bwv = bw if isinstance(bw, int) else bw.as_long()
+                        if bwv != len(b): problems.append("bytes_written reports %d, %d bytes were written" % (bwv, len(b)))
+                    else: conds.append(bw != len(b))
+                    box["problems"] = problems
+                    box["checked"] = box.get("checked", 0) + 1
+                    if problems: return BoolVal(True)
+                    return Or(conds) if conds else BoolVal(False)
+
+                name = "%s element, %d value(s) built by %s, through encode_primitive_element [%s]: length field even and exact, space padding, reported byte count exact" % (vrn, count, cname, codec)
+                res = core.explore(build)
+                rep.nontrivial += res["paths"]
+                finish_dates(rep, nat, name, res, box, codec, variant, vrn, cname, count)
+
+
+def finish_dates(rep, nat, name, res, box, codec, variant, vrn, cname, count):
+    model = res["violation"][0] if res["violation"] else None
+    if model is None and res["witnesses"]:
+        model = res["witnesses"][-1][0]
+    words = []
+    for k in range(count):
+        tag = "v%d" % k
+        g = lambda nm, bits, dflt: model_int(model, "%s_%s" % (tag, nm), bits, dflt)
+        off = 3600 * g("oh", 8, 1) + 60 * g("om", 8, 0) + g("os", 8, 0)
+        if model is not None and is_true(model.eval(Bool("%s_oneg" % tag), model_completion=True)): off = -off
+        words.append(":".join(str(x) for x in (g("y", 16, 2000), g("mo", 8, 1), g("d", 8, 1), g("h", 8, 1), g("mi", 8, 1), g("s", 8, 1), g("f", 32, 1), g("fp", 8, 1), off)))
+    real = nat.ask("c04_dates", codec, vrn, cname, *words)
+    real_problems = check_real_dates(real, codec, vrn)
+    if res["violation"]:
+        rp = rep.replay_file("c04_dates_%s_%s_%d" % (codec, cname, count), "// engine=M case=c04 (dates)\n// native: c04_dates %s %s %s %s\n// encoding: %s\n// real: %s\n// walked: %s\n" % (codec, vrn, cname, " ".join(words), box.get("problems"), real, real_problems))
+        if real_problems and real_problems != ["REFUSED"]:
+            rep.violations.append(("%s: %s (real bytes: %s; arguments y:mo:d:h:mi:s:f:fp:offset = %s)" % (name[:80], box.get("problems"), real_problems, " ".join(words)), rp))
+            rep.obligation(name, "violated", {"problems": box.get("problems"), "native": real_problems, "arguments": words})
+        else:
+            rep.inconclusive.append("C04 counterexample does not reproduce natively: %s: %s vs %s" % (name[:60], box.get("problems"), real[:80]))
+            rep.obligation(name, "inconclusive", {"problems": box.get("problems"), "native": real[:80]})
+    else:
+        rep.validated += 1
+        if real_problems and real_problems != ["REFUSED"]:
+            rep.inconclusive.append("native run of a holding instance is malformed: %s: %s / %s" % (name[:60], real[:60], real_problems))
+        if not box.get("checked"):
+            rep.inconclusive.append("vacuous: no path of '%s' reached the check (every constructor call was refused)" % name[:70])
+        rep.obligation(name, "holds", {"paths": res["paths"], "paths_reaching_the_check": box.get("checked", 0)})
+
+
+def check_real_dates(real, codec, vrn):
+    """real = 'N <bytes_written> <hex> <text length>' | 'REFUSED'"""
+    if real.startswith("REFUSED"): return ["REFUSED"]
+    if not real.startswith("N "): return [real]
+    _, bw, hx, tl = (real.split() + ["", ""])[:4]
+    b = list(bytes.fromhex(hx)); tl = int(tl)
+    problems = []
+    if int(bw) != len(b): problems.append("bytes_written reports %s, %d bytes were written" % (bw, len(b)))
+    problems += Walk(b, codec).run()
+    follow = len(b) - 8
+    if follow != tl + tl % 2: problems.append("%d bytes follow the header, the value text has %d" % (follow, tl))
+    elif tl % 2 and b[-1] != 0x20: problems.append("padding byte 0x%02x" % b[-1])
+    return problems
